@@ -34,3 +34,15 @@ Theorem C17_snapshot_atomic : forall (S V : Type) (l : list (section S V)) (s : 
   In v (snd (exec S V l s [])) ->
   exists k view, In (Read S V view) l /\ v = view (after S (firstn k (writes S V l)) s).
 Proof. exact snapshot_atomic. Qed.
+
+(** C17_main: for EVERY set-up whose initialisation succeeds and EVERY event
+    list (no hypothesis on the events at all) the model's own trace satisfies
+    the complete oracle ok_C17: the instance state is never requested while
+    held, every call has at most one write section, the data sets change only
+    in a call that has one, reads precede it, and a BMCA run is exactly one
+    write section.  (ok_C17 is the function evaluated on implementation traces,
+    where the lock events come from the harness's PtpInstanceStateMutex.) *)
+From SV Require Import Port.LockMain.
+Theorem C17_main : forall s es rel i o,
+  init s = Ok (i, o) -> ok_C17 (mkCase s es rel (Some o) (run i es)) = true.
+Proof. exact ok_C17_model. Qed.
